@@ -68,7 +68,10 @@ MD_TEMPLATES = {
     "V": ("```x", 0),   # foreign-language fence
     "E": ("```", 0),    # bare fence
     "C": ("$ ", 1),     # command
+    "c": ("$ ", 0),     # a command line without text
     "G": ("> ", 1),     # continuation
+    "g": ("> ", 0),     # continuation that adds an empty line to the command
+    "w": ("> ", 1, " "),  # continuation that ends in a blank
     "X": ("", 2),       # two letters: expectation / prose
     "R": ("[7]", 0),    # exit code
     "L": ("````s", 0),  # scrut fence of four backticks (nested shorter fences are content)
@@ -81,6 +84,14 @@ MD_TEMPLATES = {
 }
 FENCES = {"F": 3, "V": 3, "E": 3, "L": 4, "K": 4, "J": 3, "Q": 3}      # template → number of backticks at the start of the line
 SCRUT_FENCES = ("F", "L", "J", "Q")
+CONTINUATIONS = ("G", "g", "w")
+COMMANDS = ("C", "c")
+
+
+def md_text(t, payload):
+    """the text of a template line with concrete payload letters"""
+    spec = MD_TEMPLATES[t]
+    return spec[0] + payload + (spec[2] if len(spec) > 2 else "")
 INLINE_CONFIG = "{keep_crlf: true}"
 
 
@@ -90,14 +101,16 @@ def closes(opener, t):
 
 
 def md_line(ctx, t, i):
-    prefix, n = MD_TEMPLATES[t]
+    spec = MD_TEMPLATES[t]
+    prefix, n = spec[0], spec[1]
+    suffix = spec[2] if len(spec) > 2 else ""
     chars = [SInt(ord(c), "char") for c in prefix]
     payload = []
     for j in range(n):
         ch = ctx.sym_char("x%d_%d" % (i, j), 1)
         ctx.add(z3.And(ch.z() >= ord("a"), ch.z() <= ord("z")))
         payload.append(ch)
-    return chars + payload, payload
+    return chars + payload + [SInt(ord(c), "char") for c in suffix], payload
 
 
 def front_matter_len(seq):
@@ -149,7 +162,7 @@ def md_reference_body(seq):
                     k += 1           # leading comment lines
                 code = body[k:]
                 if code:
-                    cmd_at = [x for x in code if seq[x] == "C"]
+                    cmd_at = [x for x in code if seq[x] in COMMANDS]
                     if not cmd_at:
                         return "error-or-none"       # expectations without command: an error, or no test
                     first = cmd_at[0]
@@ -158,7 +171,7 @@ def md_reference_body(seq):
                     pre = code[:code.index(first)]
                     cmd = [first]
                     p = code.index(first) + 1
-                    while p < len(code) and seq[code[p]] == "G":
+                    while p < len(code) and seq[code[p]] in CONTINUATIONS:
                         cmd.append(code[p])
                         p += 1
                     exps = []
@@ -234,7 +247,7 @@ def same(a, b):
 def line_text_after_prefix(ctx, idx):
     seq, lines = ctx.notes["seq"], ctx.notes["lines"]
     prefix = MD_TEMPLATES[seq[idx]][0]
-    if seq[idx] in ("C", "G"):
+    if seq[idx] in COMMANDS or seq[idx] in CONTINUATIONS:
         return lines[idx][len(prefix):]
     return lines[idx]
 
@@ -265,7 +278,7 @@ def md_post(ctx, args, kind, value):
     blocks = [b for b in md_blocks(seq) if b[0] == "test"]
     written = [INLINE_CONFIG for b in blocks if seq[b[1]] in ("J", "Q")]
     handed = [t for ty, t in ctx.notes.get("yaml_texts", []) if ty == "TestCaseConfig"]
-    if handed != written and all(any(seq[x] == "C" for x in b[3]) for b in blocks):
+    if handed != written and all(any(seq[x] in COMMANDS for x in b[3]) for b in blocks):
         return False              # (documents with a command-less scrut block are left out: nothing observable carries its configuration)
     conds = []
     for got, w in zip(tests, want):
@@ -335,7 +348,7 @@ def md_doc_text(seq, payloads):
     """concrete document for a sequence and concrete payload letters"""
     lines = []
     for t, p in zip(seq, payloads):
-        lines.append(MD_TEMPLATES[t][0] + p)
+        lines.append(md_text(t, p))
     return "\n".join(lines) + ("\n" if lines else "")
 
 
@@ -403,13 +416,18 @@ def h_md_parse(max_len):
             if s_ not in seen:
                 seqs.append(s_)
                 seen.add(s_)
+    # commands with an empty continuation line / a continuation line ending in a blank
+    for s_ in md_sequences(max_len, "FCcgwX"):
+        if s_ not in seen and any(x in s_ for x in "cgw"):
+            seqs.append(s_)
+            seen.add(s_)
     inputs = [("doc=%s" % (s or "(empty)"), mk_md_setup(s)) for s in seqs]
     h = e2.Harness("markdown_parse_documents", md_parse_driver, inputs, md_post, native="markdown_parse", judge=None,
                    describe="parse is Err, or yields exactly the scrut blocks that contain a `$` command, in order, with the written shell "
                             "expression (incl. `>` continuations), expectation lines, exit code, 1-based line number of the `$` line and the "
                             "nearest preceding heading/paragraph as title (where that is unambiguous)",
                    bound="all documents of <= %d lines over the line templates %s, and of <= %d lines over the templates P B F C E, with symbolic "
-                         "lowercase payload letters; language 's'" % (max_len, {k: v[0] + "·" * v[1] for k, v in MD_TEMPLATES.items()}, max_len + 2))
+                         "lowercase payload letters; language 's'" % (max_len, {k: v[0] + "·" * v[1] + (v[2] if len(v) > 2 else "") for k, v in MD_TEMPLATES.items()}, max_len + 2))
     h.models_cls = DocModels
     return h
 
@@ -418,7 +436,7 @@ def replay_md(rep, nat, h, res):
     for model, r in res.raw_witnesses[:8]:
         seq = r.ctx.notes["seq"]
         payloads = ["".join(chr(e2.model_int(model, c)) for c in p) for p in r.ctx.notes["payloads"]]
-        lines = [MD_TEMPLATES[t][0] + p for t, p in zip(seq, payloads)]
+        lines = [md_text(t, p) for t, p in zip(seq, payloads)]
         doc = "\n".join(lines) + ("\n" if lines else "")
         nk, nv = nat.call("markdown_parse", [doc, ["s"]])
         if nk != "return":
@@ -730,7 +748,7 @@ def md_update_expected(seq, moved=False, fails=()):
             items += [("orig", x) for x in b[1]]
         else:
             _k, open_i, comments, code, close = b
-            if not any(seq[x] == "C" for x in code):
+            if not any(seq[x] in COMMANDS for x in code):
                 return None          # a scrut block without command: no test case, nothing prescribed here
             t = next(tests)
             test_no += 1
@@ -911,6 +929,11 @@ def h_md_update(max_len):
         if s_ not in seen:
             seqs.append(s_)
             seen.add(s_)
+    # commands with an empty continuation line / a continuation line ending in a blank
+    for s_ in md_sequences(max_len, "FCcgwX"):
+        if s_ not in seen and any(x in s_ for x in "cgw"):
+            seqs.append(s_)
+            seen.add(s_)
     inputs = [("doc=%s" % (s or "(empty)"), mk_md_setup(s)) for s in seqs]
     h = e2.Harness("markdown_update_passing_tests", md_update_driver, inputs, md_update_post, native="markdown_update", judge=None,
                    describe="updating a document whose tests all pass does not crash and returns it unchanged line for line (prose, other code "
@@ -924,6 +947,7 @@ def h_md_update(max_len):
 def h_md_update_failing(max_len):
     """the same documents with any subset of their tests failing (the command prints one other line)"""
     seqs = [s_ for s_ in md_sequences(max_len, "PHBFCGXR") if "C" in s_]
+    seqs += [s_ for s_ in md_sequences(max_len, "FCcgwX") if ("C" in s_ or "c" in s_) and any(x in s_ for x in "cgw")]
 
     def mk(s_):
         base = mk_md_setup(s_)
